@@ -37,6 +37,56 @@ VM::VM(Program code) {
   this->data = {};
 }
 
+void VM::rebindActivations() {
+  for (auto &a : this->stack) a.vm = this;
+}
+
+VM::VM(const VM &other)
+    : stepping_mode_enabled(other.stepping_mode_enabled),
+      instruction_pointer(other.instruction_pointer),
+      code(other.code),
+      data(other.data),
+      stack(other.stack),
+      enabled_breakpoints(other.enabled_breakpoints) {
+  this->rebindActivations();
+}
+
+VM::VM(VM &&other) noexcept
+    : stepping_mode_enabled(other.stepping_mode_enabled),
+      instruction_pointer(other.instruction_pointer),
+      code(std::move(other.code)),
+      data(std::move(other.data)),
+      stack(std::move(other.stack)),
+      enabled_breakpoints(std::move(other.enabled_breakpoints)) {
+  this->rebindActivations();
+}
+
+VM &VM::operator=(const VM &other) {
+  if (this != &other) {
+    this->stepping_mode_enabled = other.stepping_mode_enabled;
+    this->instruction_pointer = other.instruction_pointer;
+    this->code = other.code;
+    this->data = other.data;
+    this->stack = other.stack;
+    this->enabled_breakpoints = other.enabled_breakpoints;
+    this->rebindActivations();
+  }
+  return *this;
+}
+
+VM &VM::operator=(VM &&other) noexcept {
+  if (this != &other) {
+    this->stepping_mode_enabled = other.stepping_mode_enabled;
+    this->instruction_pointer = other.instruction_pointer;
+    this->code = std::move(other.code);
+    this->data = std::move(other.data);
+    this->stack = std::move(other.stack);
+    this->enabled_breakpoints = std::move(other.enabled_breakpoints);
+    this->rebindActivations();
+  }
+  return *this;
+}
+
 std::vector<VM::Activation> &VM::getActivations() { return this->stack; }
 
 BreakPoint VM::getCurrentBreak() {
